@@ -96,8 +96,11 @@ def _gen_ops(rng, u):
                 ops.append(("remove_absent", ("absent", 99)))
         elif r < 0.90 and present:
             ops.append(("draw", rng.randint(1, 3)))
-        else:
+        elif r < 0.96:
             ops.append(("probe", None))
+        else:
+            # the caller goes on with a COPY of the set (checkpointing a chain, handing the set to a worker process)
+            ops.append(("copy", rng.choice(["copy.copy", "copy.deepcopy", "pickle"])))
     return style, ops
 
 
@@ -265,6 +268,18 @@ def _one_history(rng, res, DrawSet):
                         res.violate("draw-returned-non-member", after=k, got=d, model=list(M), ops=ops); return
             elif op == "probe":
                 pass
+            elif op == "copy":
+                import copy as _copy
+                import pickle as _pickle
+                how = x
+                if how == "copy.copy":
+                    D = sut("copy.copy(DrawSet)", _copy.copy, D)
+                    # a shallow copy may share its containers with the original: the original is dropped here, only the copy lives on
+                elif how == "copy.deepcopy":
+                    D = sut("copy.deepcopy(DrawSet)", _copy.deepcopy, D)
+                else:
+                    D = sut("pickle round trip of a DrawSet", lambda d: _pickle.loads(_pickle.dumps(d)), D)
+                res.count("continued_on_a_copy")
             if sparse and k < len(ops) - 1 and rng.random() < 0.85:
                 continue
             if sparse:
